@@ -319,6 +319,55 @@ func sm2Scenario() scenario {
 		}}
 }
 
+// pointReader is a deterministic nonce source whose Read is a pair of scheduling points (before and
+// after it fills the caller's buffer): an operation that reads its randomness is interruptible there,
+// as it is with a real, blocking source.
+type pointReader struct{ seed byte }
+
+func (w pointReader) Read(p []byte) (int, error) {
+	vsched.Point()
+	for i := range p {
+		p[i] = byte(i*11) ^ w.seed ^ 0x3c
+	}
+	vsched.Point()
+	return len(p), nil
+}
+
+// sm2NonceScenario: signing, encrypting and generating keys at the same time, each call with its own
+// deterministic random stream. The result of each call is a function of its own stream alone (the
+// value GM/T 0003 prescribes for that nonce), whatever the other calls do meanwhile.
+func sm2NonceScenario() scenario {
+	k := func() *sm2.PrivateKey {
+		c := sm2.P256Sm2()
+		d := sm2k.Alphabet()[8].D
+		x, y := c.ScalarBaseMult(d.Bytes())
+		return &sm2.PrivateKey{PublicKey: sm2.PublicKey{Curve: c, X: x, Y: y}, D: d}
+	}
+	return scenario{name: "package-level-sm2(own random streams)", stmt: false, bound: 2, boundT: 3,
+		setup: func() interface{} { return k() },
+		threads: []func(interface{}) interface{}{
+			func(st interface{}) interface{} {
+				r, s, err := sm2.Sm2Sign(st.(*sm2.PrivateKey), pu.Msg(1, 20), nil, pointReader{1})
+				return fmt.Sprintf("%x %x %v", r, s, err)
+			},
+			func(st interface{}) interface{} {
+				r, s, err := sm2.Sm2Sign(st.(*sm2.PrivateKey), pu.Msg(2, 33), nil, pointReader{2})
+				return fmt.Sprintf("%x %x %v", r, s, err)
+			},
+			func(st interface{}) interface{} {
+				ct, err := sm2.Encrypt(&st.(*sm2.PrivateKey).PublicKey, pu.Msg(3, 40), pointReader{3}, sm2.C1C3C2)
+				return fmt.Sprintf("%x %v", ct, err)
+			},
+			func(st interface{}) interface{} {
+				g, err := sm2.GenerateKey(pointReader{4})
+				if err != nil {
+					return err.Error()
+				}
+				return fmt.Sprintf("%x", g.D)
+			},
+		}}
+}
+
 // wire20 is a deterministic byte source for the fixtures.
 type wire20 struct{ seed byte }
 
@@ -330,7 +379,7 @@ func (w wire20) Read(p []byte) (int, error) {
 }
 
 func scenarios() []scenario {
-	sc := []scenario{blockScenario("ED"), blockScenario("DD"), blockScenario("EE"), blockScenario("EDE"), blockScenario("DDD"), cbcScenario(), helpersScenario(), sm3Scenario(), berScenario(), sm2Scenario()}
+	sc := []scenario{blockScenario("ED"), blockScenario("DD"), blockScenario("EE"), blockScenario("EDE"), blockScenario("DDD"), cbcScenario(), helpersScenario(), sm3Scenario(), berScenario(), sm2Scenario(), sm2NonceScenario()}
 	return append(append(append(sc, connScenarios()...), handshakeScenarios()...), renegScenarios()...)
 }
 
